@@ -741,14 +741,14 @@ func init() {
 		if tier == "thorough" {
 			// all lists of length 3, for a PRNG-chosen quarter of the states,
 			// each state taking a PRNG-chosen 1/8 residue class of the lists
+			// all lists of length 3 from EVERY state, each state taking a PRNG-chosen
+			// residue class (1 in 4) of the 233 280 (list, target filter) combinations
 			rng := kit.NewRng(seed ^ 0xE1)
 			for si, st := range sts {
-				if rng.Intn(4) == 0 {
-					cases = append(cases, e1ExhaustiveCase(si, st, 3, 8, rng.Intn(8)))
-				}
+				cases = append(cases, e1ExhaustiveCase(si, st, 3, 4, rng.Intn(4)))
 			}
 		}
-		nw := tierPick(tier, 160, 3000)
+		nw := tierPick(tier, 160, 12000)
 		for i := 0; i < nw; i++ {
 			cases = append(cases, e1WalkCase(seed, i, 200))
 		}
